@@ -21,6 +21,34 @@ def Frame.push (f : Frame) (c : Ctl) : Frame := { f with w := f.w ++ [c] }
 def Frame.adv (f : Frame) : Frame :=
   { f with step := f.step + groupSize, base := (f.base + (f.step + groupSize)) % f.n, w := [] }
 
+@[simp] theorem adv_tb (f : Frame) : f.adv.tb = f.tb := rfl
+@[simp] theorem adv_n (f : Frame) : f.adv.n = f.n := rfl
+@[simp] theorem adv_step (f : Frame) : f.adv.step = f.step + groupSize := rfl
+@[simp] theorem adv_base (f : Frame) : f.adv.base = (f.base + (f.step + groupSize)) % f.n := rfl
+@[simp] theorem adv_w (f : Frame) : f.adv.w = [] := rfl
+@[simp] theorem adv_kind (f : Frame) : f.adv.kind = f.kind := rfl
+@[simp] theorem adv_e (f : Frame) : f.adv.e = f.e := rfl
+@[simp] theorem adv_built (f : Frame) : f.adv.built = f.built := rfl
+@[simp] theorem adv_must (f : Frame) : f.adv.must = f.must := rfl
+@[simp] theorem reload_tb (f : Frame) : f.reload.tb = f.tb := rfl
+@[simp] theorem reload_n (f : Frame) : f.reload.n = f.n := rfl
+@[simp] theorem reload_step (f : Frame) : f.reload.step = f.step := rfl
+@[simp] theorem reload_base (f : Frame) : f.reload.base = f.base := rfl
+@[simp] theorem reload_w (f : Frame) : f.reload.w = [] := rfl
+@[simp] theorem reload_kind (f : Frame) : f.reload.kind = f.kind := rfl
+@[simp] theorem reload_e (f : Frame) : f.reload.e = f.e := rfl
+@[simp] theorem reload_built (f : Frame) : f.reload.built = f.built := rfl
+@[simp] theorem reload_must (f : Frame) : f.reload.must = f.must := rfl
+@[simp] theorem push_tb (f : Frame) (c : Ctl) : (f.push c).tb = f.tb := rfl
+@[simp] theorem push_n (f : Frame) (c : Ctl) : (f.push c).n = f.n := rfl
+@[simp] theorem push_step (f : Frame) (c : Ctl) : (f.push c).step = f.step := rfl
+@[simp] theorem push_base (f : Frame) (c : Ctl) : (f.push c).base = f.base := rfl
+@[simp] theorem push_w (f : Frame) (c : Ctl) : (f.push c).w = f.w ++ [c] := rfl
+@[simp] theorem push_kind (f : Frame) (c : Ctl) : (f.push c).kind = f.kind := rfl
+@[simp] theorem push_e (f : Frame) (c : Ctl) : (f.push c).e = f.e := rfl
+@[simp] theorem push_built (f : Frame) (c : Ctl) : (f.push c).built = f.built := rfl
+@[simp] theorem push_must (f : Frame) (c : Ctl) : (f.push c).must = f.must := rfl
+
 theorem advance_eq (f : Frame) :
     advance f = if f.step + groupSize < f.n then .load f.adv else tableEnd f := rfl
 
@@ -161,46 +189,44 @@ theorem adv_ok {ns : List Node} {ch : List Nat} {f : Frame} {p : Nat}
   obtain ⟨hs1, hs2, hs3⟩ := hp.stepEq hd
   have hdiv : (f.step + groupSize) / 16 = f.step / 16 + 1 := by
     simp only [groupSize_eq]; omega
-  have hbase : f.adv.base = wbase f.n ((nodeAt ns f.tb).tab.baseOf (hash f.e.1)) (f.step / 16 + 1) := by
-    show (f.base + (f.step + groupSize)) % f.n = _
+  have hbase : (f.base + (f.step + groupSize)) % f.n =
+      wbase f.n ((nodeAt ns f.tb).tab.baseOf (hash f.e.1)) (f.step / 16 + 1) := by
     rw [hs3, ← wbase_succ]
     simp only [groupSize_eq]
     congr 2; omega
-  refine ⟨p, hf.congr rfl rfl rfl rfl rfl, ?_, by show ([] : List Ctl).length < 16; simp⟩
-  refine ⟨hp.notBuilt, by show ([] : List Ctl).length ≤ 16; simp, ?_, ?_, ?_, ?_, ?_, ?_⟩
-  · intro hd'; rw [show f.adv.tb = f.tb from rfl, hd] at hd'; cases hd'
+  refine ⟨p, hf.congr rfl rfl rfl rfl rfl, ?_, by simp⟩
+  refine ⟨by simpa using hp.notBuilt, by simp, ?_, ?_, ?_, ?_, ?_, ?_⟩
+  · intro hd'; rw [adv_tb, hd] at hd'; cases hd'
   · intro _
-    show f.step + groupSize = 16 * ((f.step + groupSize) / 16) ∧ f.step + groupSize < f.n ∧ _
+    simp only [adv_tb, adv_n, adv_step, adv_base, adv_e]
     refine ⟨by rw [hdiv]; simp only [groupSize_eq]; omega, hlt, ?_⟩
     rw [hdiv]; exact hbase
   · intro _ m' hm'
-    show winFull (nodeAt ns f.tb).tab (wbase f.n _ m')
-    have hm'' : m' < f.step / 16 + 1 := by
-      have : f.adv.step / 16 = f.step / 16 + 1 := hdiv
-      rw [this] at hm'; exact hm'
+    simp only [adv_tb, adv_n, adv_step, adv_e] at hm' ⊢
+    rw [hdiv] at hm'
     rcases Nat.lt_or_ge m' (f.step / 16) with h1 | h1
     · exact hp.prefixFull hd m' h1
     · have : m' = f.step / 16 := by omega
       subst this
       rw [← hs3]; exact hp.cur_full hw hnn
   · intro _ hk m' hm' j hj
-    show claimAt (nodeAt ns f.tb) ((wbase f.n _ m' + j) % f.n) ≠ some f.e.1
-    have hm'' : m' < f.step / 16 + 1 := by
-      have : f.adv.step / 16 = f.step / 16 + 1 := hdiv
-      rw [this] at hm'; exact hm'
+    simp only [adv_tb, adv_n, adv_step, adv_e, adv_kind] at hm' hk ⊢
+    rw [hdiv] at hm'
     rcases Nat.lt_or_ge m' (f.step / 16) with h1 | h1
     · exact hp.passed hd hk m' h1 j hj
     · have : m' = f.step / 16 := by omega
       subst this
       rw [← hs3]; exact hp.cur_unclaimed hok hf.nEq hd hw hcmp hj (hnn j hj)
-  · intro j hj; exact absurd hj (by show ¬ j < ([] : List Ctl).length; simp)
+  · intro j hj; simp at hj
   · intro si hm hu
-    obtain ⟨ms, js, h1, h2, h3, h4, h5, h6, _⟩ := must_ahead hf hp hw hd hcmp hm hu
+    simp only [adv_tb, adv_must] at hm
+    have hu' : usable f f.tb := hu
+    obtain ⟨ms, js, h1, h2, h3, h4, h5, h6, _⟩ := must_ahead hf hp hw hd hcmp hm hu'
+    simp only [adv_tb, adv_n, adv_step, adv_e, adv_w]
     refine ⟨ms, js, ?_, h2, h3, h4, h5, h6, fun _ c hc => ?_, fun _ hj => ?_⟩
-    · show (f.step + groupSize) / 16 ≤ ms
-      rw [hdiv]; exact h1
-    · exact absurd hc (by show c ∉ ([] : List Ctl); simp)
-    · exact absurd hj (by show ¬ js < ([] : List Ctl).length; simp)
+    · rw [hdiv]; exact h1
+    · simp at hc
+    · simp at hj
 
 /-- all windows full and unclaimed = the table refuses the key -/
 theorem full_of_last {ns : List Node} {ch : List Nat} {f : Frame} {p : Nat}
